@@ -538,7 +538,7 @@ def _cdf_checks(ctx, dist, ref, cls, args, info):
         except Exception as e:
             ctx.viol(f"cdf-raises:{cls}:{type(e).__name__}", {**info, "x": x, "exc": repr(e)})
             return False
-        if c != want:
+        if abs(c - want) > 1e-9:        # (the same tolerance as against the closed form inside the support)
             ctx.viol(f"cdf-outside-support:{cls}", {**info, "x": x, "cdf": c, "want": want})
             return False
     try:
@@ -548,9 +548,12 @@ def _cdf_checks(ctx, dist, ref, cls, args, info):
         ctx.viol(f"icdf-raises:{cls}:{type(e).__name__}", {**info, "y": "0.0 / 1.0 / 1e-9", "exc": repr(e)})
         return False
     ctx.count("icdf_end_points", 2)
-    slack = 1e-6 * float(ref.std())        # erf_inv is accurate to ~4.5e-8 relative: the inner values may overshoot an end point by that much
+    # erf_inv is accurate to ~4.5e-8 relative to the scale of the underlying normal: the inner values may overshoot an
+    # end point by that much, and the closed form's own end points are only good to rounding
+    scale = max([abs(v) for v in (xa, xb) if math.isfinite(v)] + [float(args[1])])
+    slack = 1e-6 * scale
     if not (x0 <= xa + slack and xa <= xb and xb <= x1 + slack) or abs(dist.cumulative_probability(x0)) > 1e-9 or abs(dist.cumulative_probability(x1) - 1.0) > 1e-9 \
-            or (math.isfinite(slo) and x0 != slo) or (math.isfinite(shi) and x1 != shi):
+            or (math.isfinite(slo) and abs(x0 - slo) > slack) or (math.isfinite(shi) and abs(x1 - shi) > slack):
         ctx.viol(f"icdf-end-points:{cls}", {**info, "icdf(0)": x0, "icdf(1e-9)": xa, "icdf(1-1e-9)": xb, "icdf(1)": x1, "support": [slo, shi]})
         return False
     for y in (-1e-9, -0.5, 1.0000001, 2.0, math.nan):
